@@ -266,6 +266,34 @@ func runC08(p *Prog, l *Ledger) {
 				}
 				return true
 			})
+			// a helper that is handed the baseline as an argument (read once by OnSample, passed down): the parameter is a
+			// measurement value too
+			if on := p.Method(af.A.T, "OnSample"); on != nil && on != af.Fn {
+				allInstrs(on, func(ins ssa.Instruction) {
+					call, ok := ins.(*ssa.Call)
+					if !ok || p.CallOf(call).Static != af.Fn {
+						return
+					}
+					for i, arg := range call.Call.Args {
+						if i >= len(af.Fn.Params) || af.Fn.Params[i] == af.RTT {
+							continue
+						}
+						a := strip(arg, true)
+						if cv, ok := a.(*ssa.Convert); ok {
+							a = strip(cv.X, true)
+						}
+						if ex, ok := a.(*ssa.Extract); ok {
+							a = ex.Tuple
+						}
+						if ac, ok := a.(*ssa.Call); ok && ac.Common().IsInvoke() {
+							switch ac.Common().Method.Name() {
+							case "Get", "Add":
+								pr.axiomGE(atomVal(af.Fn.Params[i]), atomConst(0))
+							}
+						}
+					}
+				})
+			}
 			ctx := &polCtx{pr: pr, rtt: af.RTT, memo: map[ssa.Value]int{}}
 
 			// ---- O3 / O2: rtt-dependent branch facts on this path
